@@ -108,3 +108,12 @@ Lemma addConn_store_and_publish_one_step :
   one_step "multiplex.switchboard.addConn" "switchboard.addConnM"
     [is_atomic "switchboard.connsCount"; is_call "switchboard.conns.Store"] [] = true.
 Proof. vm_compute. reflexivity. Qed.
+
+(* ---- pooled frame buffers, receive frames and PRNGs are not touched after Put (a second
+   writer may already own them) *)
+Lemma mux_pools_no_use_after_put :
+  put_is_last_use "multiplex.Stream.Write" = true /\ put_is_last_use "multiplex.Stream.ReadFrom" = true
+  /\ put_is_last_use "multiplex.Session.closeStream" = true
+  /\ put_is_last_use "multiplex.Session.recvDataFromRemote" = true
+  /\ put_is_last_use "multiplex.switchboard.pickRandConn" = true.
+Proof. repeat split; vm_compute; reflexivity. Qed.
